@@ -14,9 +14,10 @@
 // Oracles:
 //   (1) a reader inside a region never sees a reclaimed object (state word /
 //       poisoned payload; ASan use-after-free; TSan race reader-read vs poison);
-//   (2) offline on the stamped history: low_water_mark() returned L, tick t <= L
-//       returned before that call began, region entered before tick(t) was
-//       called  ==>  the region's exit had begun before low_water_mark returned;
+//   (2) offline on the stamped history: low_water_mark() returned L, some tick
+//       t <= L, a region whose enter returned before tick(t) was called and
+//       before the scan began  ==>  the region's exit had begun before
+//       low_water_mark returned (with L = UINT64_MAX: no region spans the scan);
 //   (3) no region overlapping a scan ==> the scan returns UINT64_MAX (idle,
 //       released, reused accessors never hold the mark back); otherwise the mark
 //       is not below what the oldest overlapping region can have observed;
@@ -40,6 +41,8 @@ constexpr uint64_t kDead = 0xdeaddeaddeaddeadULL;
 constexpr uint64_t kPoison = 0xbadbadbadbadbadbULL;
 // ordering claims between stamps of different threads keep this safety margin (cycles)
 constexpr uint64_t kMargin = 2000;
+constexpr size_t kMaxLwmLog = 200000;  // per writer and episode
+constexpr size_t kReaderFullSpeedRegions = 40000;
 
 inline uint64_t payload_of(uint64_t serial) { return serial * 0x9e3779b97f4a7c15ULL + 77; }
 
@@ -84,6 +87,7 @@ struct Moved {
   Region rec;
   std::vector<Obj*> seen;
   int depth = 1;
+  int hops = 0;
   uint64_t slot_version = 0;
 };
 
@@ -107,6 +111,7 @@ struct World {
   std::vector<Accessor> idle_kept;  // unlocked accessors that outlive the reader threads
   std::atomic<uint64_t> slot_seen_mask[8];  // accessor indexes ever created (reuse detection), 512 bits
   std::atomic<uint64_t> held_back {0}, handoffs {0}, reclaimed {0};
+  std::atomic<int> handoff_queued {0};  // mirrors handoff.size() (bounded: a queued region holds the mark back)
 };
 
 World* g_world = nullptr;
@@ -160,8 +165,10 @@ struct RegionRunner {
     Region rec;
     std::vector<Obj*> seen;
     int depth = 1;
+    int hops = 0;
     uint64_t word = 0;
     if (cont) {
+      hops = cont->hops;
       rec = cont->rec;
       seen = std::move(cont->seen);
       depth = cont->depth;
@@ -213,9 +220,11 @@ struct RegionRunner {
                                     (unsigned long)slot_word(w, rec.slot)));
         }
         recheck(seen, rec, "after an inner unlock of a nested region");
-      } else if (a < 88 && acc != nullptr && rng.chance(uint64_t(w.cfg.handoff_pct), 100) &&
-                 w.writers_done.load(std::memory_order_relaxed) < w.cfg.writers) {
+      } else if (a < 88 && acc != nullptr && hops < 3 && rng.chance(uint64_t(w.cfg.handoff_pct), 100) &&
+                 w.writers_done.load(std::memory_order_relaxed) < w.cfg.writers &&
+                 w.handoff_queued.load(std::memory_order_relaxed) < w.cfg.readers) {
         Moved m;
+        m.hops = hops + 1;
         m.acc = std::move(*acc);
         m.rec = rec;
         m.seen = std::move(seen);
@@ -224,6 +233,7 @@ struct RegionRunner {
         {
           std::lock_guard<std::mutex> g(w.handoff_mu);
           w.handoff.push_back(std::move(m));
+          w.handoff_queued.fetch_add(1, std::memory_order_relaxed);
         }
         w.handoffs.fetch_add(1, std::memory_order_relaxed);
         VF_COUNT("rare:region_handed_off");
@@ -279,13 +289,14 @@ void reader_body(World& w, int role, int thread, uint64_t regions_cap) {
       rr.run(nullptr, nullptr);
     } else {
       bool adopted = false;
-      if (rng.chance(1, 3)) {
+      if (w.handoff_queued.load(std::memory_order_relaxed) > 0 && rng.chance(2, 3)) {
         Moved m;
         {
           std::lock_guard<std::mutex> g(w.handoff_mu);
           if (!w.handoff.empty()) {
             m = std::move(w.handoff.front());
             w.handoff.pop_front();
+            w.handoff_queued.fetch_sub(1, std::memory_order_relaxed);
             adopted = true;
           }
         }
@@ -321,6 +332,8 @@ void reader_body(World& w, int role, int thread, uint64_t regions_cap) {
       }
     }
     if (rng.chance(1, 8)) vf::perturb("cb:c09_between_regions");
+    // bounded history: a reader far ahead of the writers slows down (it still keeps regions opening and closing)
+    if (rr.log.size() > kReaderFullSpeedRegions) vf::raw_sleep_us(100);
   }
   if (w.cfg.accessor_style && !idle.empty()) {
     std::lock_guard<std::mutex> g(w.idle_mu);
@@ -377,7 +390,7 @@ void writer_role(World& w, int writer) {
     m.ret = vf::stamp_ret();
     w.scanning.fetch_sub(1, std::memory_order_relaxed);
     if (first_after_tick) w.tick_pending.fetch_sub(1, std::memory_order_relaxed);
-    llog.push_back(m);
+    if (llog.size() < kMaxLwmLog) llog.push_back(m);  // unlogged calls are simply not judged
     VF_COUNT("obs:lwm_calls");
     if (!pending.empty() && m.L < pending.back().second) {
       w.held_back.fetch_add(1, std::memory_order_relaxed);
@@ -413,7 +426,7 @@ void writer_role(World& w, int writer) {
     if (do_poll) poll(true); else w.tick_pending.fetch_sub(1, std::memory_order_relaxed);
     int guard = 0;
     while (pending.size() > 48 && !vf::failed()) {  // bounded backlog: wait for readers to leave
-      if (++guard > 4) vf::raw_sleep_us(30);
+      if (++guard > 4) vf::raw_sleep_us(guard > 200 ? 500 : 30);
       else ::sched_yield();
       poll(false);
     }
@@ -423,13 +436,6 @@ void writer_role(World& w, int writer) {
 }
 
 // ---------------------------------------------------------------- offline oracles
-struct Fenwick {  // prefix maximum
-  std::vector<uint64_t> a;
-  explicit Fenwick(size_t n) : a(n + 1, 0) {}
-  void set(size_t i, uint64_t v) { for (; i < a.size(); i += i & (~i + 1)) a[i] = std::max(a[i], v); }
-  uint64_t get(size_t i) const { uint64_t r = 0; for (; i > 0; i -= i & (~i + 1)) r = std::max(r, a[i]); return r; }
-};
-
 void offline_oracles(World& w, std::vector<Region>& regions, std::vector<Tick>& ticks, std::vector<Lwm>& lwms) {
   const std::string cfg = w.cfg.describe() + vf::fmt("\nepisode=%lu seed=%lu", (unsigned long)w.index, (unsigned long)w.seed);
   // --- ticks: unique, dense, real-time ordered
@@ -467,6 +473,7 @@ void offline_oracles(World& w, std::vector<Region>& regions, std::vector<Tick>& 
     }
   }
   if (!dense) return;
+  vf::progress();
   const size_t N = ticks.size();
   // --- oracle 2
   std::sort(lwms.begin(), lwms.end(), [](const Lwm& a, const Lwm& b) { return a.call < b.call; });
@@ -491,21 +498,21 @@ void offline_oracles(World& w, std::vector<Region>& regions, std::vector<Tick>& 
   std::vector<uint64_t> pref_max_t(by_ret.size());
   for (size_t i = 0; i < by_ret.size(); ++i) pref_max_t[i] = std::max(by_ret[i]->t, i ? pref_max_t[i - 1] : 0);
 
-  Fenwick fw(N);
-  size_t j = 0;
+  // pm_call[t] = latest call stamp among tick(1..t): a region whose enter returned before that stamp (and before
+  // the scan began) recorded an epoch < t, so a scan that sees it cannot return L >= t.
+  std::vector<uint64_t> pm_call(N + 1, 0);
+  for (size_t i = 0; i < N; ++i) pm_call[i + 1] = std::max(pm_call[i], ticks[i].call);  // ticks sorted by t, dense
+  vf::progress();
   uint64_t checked2 = 0, checked3_idle = 0, checked3_bound = 0;
   for (const Lwm& m : lwms) {
-    while (j < by_ret.size() && by_ret[j]->ret + kMargin < m.call) {
-      fw.set(size_t(by_ret[j]->t), by_ret[j]->call);
-      ++j;
-    }
+    vf::progress();
     if (m.L != UINT64_MAX && m.L > N) {
       vf::violation("c09:mark-above-global-epoch", "low_water_mark() returned a finite value larger than any epoch ever issued",
                     cfg + vf::fmt("\nL=%lu ticks=%zu", (unsigned long)m.L, N));
       return;
     }
     size_t lc = size_t(std::min<uint64_t>(m.L, N));
-    uint64_t X = lc ? fw.get(lc) : 0;  // latest call time of a tick t<=L that had returned before the scan began
+    uint64_t X = std::min(pm_call[lc], m.call);  // enter.ret < X  ==>  recorded epoch < some t <= L, and visible to the scan
     if (X > kMargin) {
       // regions whose enter returned before X
       size_t lo = 0, hi = by_enter.size();
@@ -519,7 +526,7 @@ void offline_oracles(World& w, std::vector<Region>& regions, std::vector<Tick>& 
         if (r->exit_call > m.ret + kMargin) {
           // find a witness tick
           const Tick* wt = nullptr;
-          for (auto& t : ticks) if (t.t <= m.L && t.ret + kMargin < m.call && r->enter_ret + kMargin < t.call) { wt = &t; break; }
+          for (auto& t : ticks) if (t.t <= m.L && r->enter_ret + kMargin < t.call) { wt = &t; break; }
           vf::violation("c09:lwm-reached-tick-while-older-region-open",
                         "low_water_mark() reached a tick although a region entered before that tick was still open when the call returned",
                         cfg + "\n" + region_str(*r) +
@@ -615,6 +622,7 @@ void run_ebr(uint64_t seed, uint64_t index) {
     w.cell.store(first, std::memory_order_release);
   }
   vf::watchdog().set_context(c.describe() + vf::fmt(" episode=%lu", (unsigned long)index));
+  if (vf::args().get("verbose", 0)) fprintf(stderr, "[c09] %.2f ebr episode %lu %s\n", vf::now_s(), (unsigned long)index, c.describe().c_str());
   vf::pin_cpus(c.pin);
   vf::watchdog().arm(true);
   vf::run_threads(nthreads, es, [&](int i) {
@@ -665,7 +673,9 @@ void run_ebr(uint64_t seed, uint64_t index) {
   for (auto& v : w.regions) regions.insert(regions.end(), v.begin(), v.end());
   for (auto& v : w.ticks) ticks.insert(ticks.end(), v.begin(), v.end());
   for (auto& v : w.lwms) lwms.insert(lwms.end(), v.begin(), v.end());
+  if (vf::args().get("verbose", 0)) fprintf(stderr, "[c09] %.2f joined: regions=%zu ticks=%zu lwms=%zu\n", vf::now_s(), regions.size(), ticks.size(), lwms.size());
   if (!vf::failed()) offline_oracles(w, regions, ticks, lwms);
+  if (vf::args().get("verbose", 0)) fprintf(stderr, "[c09] %.2f oracle done\n", vf::now_s());
   vf::watchdog().arm(false);
 
   uint64_t fp = vf::mix(uint64_t(c.accessor_style) | uint64_t(c.writers) << 1 | uint64_t(c.readers) << 4 |
